@@ -572,6 +572,12 @@ def gen_sound(tier, seed, env_text):
                 for ns in ((1, 2), (1,), (2, 3, 4))]
     two_elem += [list(reversed(h)) for h in two_elem]
     add("more than five homogeneous tuple shapes of two element types at one position", two_elem, [0], ["DEFAULT", "RLU5", "RLU2"], [""])
+    # one generator run yielding records with different keys (what is stored for ONE call must respect the limit too)
+    ykeys = [[dk("a"), dk("b"), dk("c")], [dk("a", "b"), dk("c")], [dk("a"), dk("a", "b"), dk("b", "c")], [dk("x"), A("int"), dk("y"), dk("z")]]
+    add("one generator run yielding records with different key sets",
+        [[{"f": "g0", "args": [A("int")], "ret": A("NoneType"), "ys": ys}] for ys in ykeys] +
+        [[{"f": "g0", "args": [A("int")], "ret": A("NoneType"), "ys": ys}, {"f": "g0", "args": [A("int")], "ret": A("NoneType"), "ys": list(reversed(ys))}] for ys in ykeys[:2]],
+        [1, 2, 3], ["NONE", "DEFAULT"], [""])
     # string keys that cannot be written as a field of a class-syntax TypedDict
     odd = [[mk_call(f, [dk("content-type", "a")], dk("class"))] for f in ("f1", "K.m")] + \
           [[mk_call("f1", [C("list", dk("1abc"), dk("a"))], dk("a b", "b"))], [mk_call("f0", [dk("a"), dk("")], C("list", dk("def", "x-y")))]]
